@@ -106,6 +106,22 @@ class SaveRestoreDomain:
             return e.get("name")
         return None
 
+    def _is_whole(self, e):
+        """`*inst`"""
+        e = strip(e, casts=True)
+        return e.get("kind") == "UnaryOperator" and e.get("opcode") == "*" and ref_name(strip(kids(e)[0], casts=True)) == self.inst
+
+    def _snap_field(self, e, s):
+        """`snapshot.field` of a local that was copied from the whole instance while that field was clean"""
+        e = strip(e, casts=True)
+        if e.get("kind") == "MemberExpr" and not e.get("isArrow"):
+            b = strip(kids(e)[0], casts=True)
+            if b.get("kind") == "DeclRefExpr":
+                key = "s:" + b.get("referencedDecl", {}).get("id", "")
+                if e.get("name") in s["saved"].get(key, ()):
+                    return e.get("name")
+        return None
+
     def decl(self, vd, s):
         init = kids(vd)
         if init:
@@ -113,6 +129,12 @@ class SaveRestoreDomain:
             f = self._field_of(init[-1])
             if f in self.config and f not in s["dirty"]:
                 s["saved"]["v:" + vd["id"]] = f
+            elif self._is_whole(init[-1]):
+                s["saved"]["s:" + vd["id"]] = frozenset(self.config - set(s["dirty"]))
+            else:
+                g = self._snap_field(init[-1], s)
+                if g in self.config:
+                    s["saved"]["v:" + vd["id"]] = g
         return s
 
     def eval(self, e, s):
@@ -125,12 +147,24 @@ class SaveRestoreDomain:
                 e0.get("opcode") not in ("==", "!=", "<=", ">="):
             s = self.eval(ks[1], s)
             f = self._field_of(ks[0])
+            if e0.get("opcode") == "=" and self._is_whole(ks[0]):
+                # `*inst = snapshot`: every field goes back to what the snapshot holds
+                src = strip(ks[1], casts=True)
+                key = "s:" + src.get("referencedDecl", {}).get("id", "") if src.get("kind") == "DeclRefExpr" else None
+                clean = s["saved"].get(key) if key else None
+                if clean is not None:
+                    s["dirty"] = frozenset(set(s["dirty"]) - set(clean))
+                else:
+                    s["dirty"] = frozenset(self.config)
+                return s
             if f in self.config:
                 src = strip(ks[1], casts=True)
                 key = None
                 if src.get("kind") == "DeclRefExpr":
                     key = "v:" + src.get("referencedDecl", {}).get("id", "")
                 if e0.get("opcode") == "=" and key and s["saved"].get(key) == f:
+                    s["dirty"] = s["dirty"] - {f}
+                elif e0.get("opcode") == "=" and self._snap_field(ks[1], s) == f:
                     s["dirty"] = s["dirty"] - {f}
                 else:
                     s["dirty"] = s["dirty"] | {f}
@@ -142,8 +176,21 @@ class SaveRestoreDomain:
                     g = self._field_of(ks[1])
                     if g in self.config and g not in s["dirty"]:
                         s["saved"][key] = g
+                    elif self._snap_field(ks[1], s) in self.config:
+                        s["saved"][key] = self._snap_field(ks[1], s)
                     else:
                         s["saved"].pop(key, None)
+                    skey = "s:" + lhs.get("referencedDecl", {}).get("id", "")
+                    if self._is_whole(ks[1]):
+                        s["saved"][skey] = frozenset(self.config - set(s["dirty"]))
+                    else:
+                        s["saved"].pop(skey, None)
+                elif lhs.get("kind") == "MemberExpr" and not lhs.get("isArrow"):
+                    b = strip(kids(lhs)[0], casts=True)
+                    if b.get("kind") == "DeclRefExpr":
+                        skey = "s:" + b.get("referencedDecl", {}).get("id", "")
+                        if skey in s["saved"]:
+                            s["saved"][skey] = frozenset(set(s["saved"][skey]) - {lhs.get("name")})
             return s
         if k == "UnaryOperator" and e0.get("opcode") in ("++", "--"):
             f = self._field_of(ks[0])
@@ -230,7 +277,16 @@ class GateDomain:
     def decl(self, vd, s):
         for c in kids(vd):
             s = self.eval(c, s)
+        if kids(vd) and self._room_call_on_pos(kids(vd)[-1]):
+            return ("held", vd["name"])       # the result of the room check waits in a variable
         return s
+
+    def _room_call_on_pos(self, e):
+        e = strip(e, casts=True)
+        if e.get("kind") == "CallExpr" and callee_name(e) == self.roles.room_check:
+            args = call_args(e)
+            return len(args) >= 2 and self._is_pos(args[1])
+        return False
 
     def _is_pos(self, e):
         e = strip(e, casts=True)
@@ -265,6 +321,10 @@ class GateDomain:
             s = self.eval(ks[1], s)
             if self._is_pos(ks[0]):
                 s = "unchecked"
+            elif e0.get("opcode") == "=" and strip(ks[0]).get("kind") == "DeclRefExpr" and self._room_call_on_pos(ks[1]):
+                s = ("held", ref_name(strip(ks[0])))
+            elif isinstance(s, tuple) and ref_name(strip(ks[0], casts=True)) == s[1]:
+                s = "unchecked"
             return s
         if k == "UnaryOperator" and e0.get("opcode") in ("++", "--") and self._is_pos(ks[0]):
             return "unchecked"
@@ -274,6 +334,19 @@ class GateDomain:
 
     def assume(self, e, truth, s):
         e0 = strip(e)
+        if isinstance(s, tuple):
+            # the held status is tested: `v`, `!v` (through Flow), `v != 0`, `v == EXIT_SUCCESS`, ...
+            e1 = strip(e0, casts=True)
+            if e1.get("kind") == "DeclRefExpr" and ref_name(e1) == s[1]:
+                return "checked" if not truth else s
+            if e1.get("kind") == "BinaryOperator" and e1.get("opcode") in ("==", "!="):
+                l, r = strip(kids(e1)[0], casts=True), strip(kids(e1)[1], casts=True)
+                for a, b in ((l, r), (r, l)):
+                    if a.get("kind") == "DeclRefExpr" and ref_name(a) == s[1]:
+                        v = ConstEval(self.prog).try_eval(b)
+                        passed = (v == 0 and ((e1["opcode"] == "==") == truth)) or (v not in (0, None) and ((e1["opcode"] == "!=") == truth))
+                        return "checked" if passed else s
+            return s
         # FAIL_IF(room_check(al, pos)): the check passed on the false branch
         if e0.get("kind") == "CallExpr" and callee_name(e0) == self.roles.room_check:
             args = call_args(e0)
